@@ -299,7 +299,7 @@ class MosekWrapper(Wrapper):
         self.solver_name = "MOSEK"
         self.optimal_G = self._get_Gram_from_mosek(self.task.getbarxj(mosek.soltype.itr, 0), Point.counter)
         xx = self.task.getxx(mosek.soltype.itr)
-        tau = xx[-2]
+        tau = xx[self.objective.counter]
         self.optimal_F = xx
         problem_status = self.task.getprosta(mosek.soltype.itr)
         return problem_status, self.solver_name, tau
@@ -319,7 +319,7 @@ class MosekWrapper(Wrapper):
         """
         import mosek
 
-        self.task.putclist([Expression.counter - 1], [0.0])
+        self.task.putclist([self.objective.counter], [0.0])
         self.task.putobjsense(mosek.objsense.minimize)
         self.send_constraint_to_solver(self.objective >= wc_value - tol_dimension_reduction, track=False)
 
